@@ -75,7 +75,7 @@ def step (line : String) : String :=
   | [e, lz, ib, il, ic, hx] =>
     match parseEol e with
     | some eol =>
-      let cx : Ctx := { g := #[], inp := parseHex hx, eol := eol, lazy := lz == "1",
+      let cx : Ctx := { g := #[], inp := parseHex hx, eol := eol, lazy := lz == "1" || lz == "3",   -- 2 / 3: the same input obtained from a parse-tree node (harness only)
                         init := ⟨nat! ib, nat! il, nat! ic⟩ }
       runCase cx
     | none => s!"BAD {line}"
